@@ -71,7 +71,7 @@ class ElementwiseSDE(torch.nn.Module):
 
 def cases(tier, seed):
     out = []
-    reps = 2 if tier == "quick" else 60
+    reps = 2 if tier == "quick" else 180
     for ci, cell in enumerate(zoo.matrix()):
         for r in range(reps):
             out.append({"key": f"{zoo.cell_name(cell)}-{r}", "kind": "solver", "cell": cell,
@@ -81,7 +81,7 @@ def cases(tier, seed):
             for r in range(1 if tier == "quick" else 10):
                 out.append({"key": f"scales-{zoo.cell_name(cell)}-{r}", "kind": "scales", "cell": cell,
                             "rseed": hash((seed, 55, ci, r)) % (2 ** 31), "cost": 1})
-    nb = 60 if tier == "quick" else 3000
+    nb = 60 if tier == "quick" else 9000
     for i in range(nb):
         out.append({"key": f"bm{i}", "kind": "bm", "rseed": hash((seed, 99, i)) % (2 ** 31)})
     return out
